@@ -39,7 +39,10 @@ func MustParse(src string) *parser.Program {
 
 // RunTimeout bounds one execution of the code under test; a run that does not return in time is reported with
 // Panic = "timeout: …" (the runaway goroutine is abandoned; the harness process still finishes).
-var RunTimeout = 90 * time.Second
+var RunTimeout = 60 * time.Second
+
+// OnTimeout, when set (vh.Main sets it), is called once with a description of the program whose run did not return.
+var OnTimeout func(desc map[string]interface{})
 
 // ExecProg runs prog on a fresh interpreter with the given config; panics of the code under test are recovered and a
 // run that never returns is cut off after RunTimeout.
@@ -50,7 +53,13 @@ func ExecProg(prog *parser.Program, cfg *interp.Config) RunResult {
 	case r := <-done:
 		return r
 	case <-time.After(RunTimeout):
-		return RunResult{Panic: fmt.Sprintf("timeout: run did not return within %s", RunTimeout)}
+		r := RunResult{Panic: fmt.Sprintf("timeout: run did not return within %s", RunTimeout)}
+		if OnTimeout != nil {
+			// a run that never returns is a decisive failure; report it at once instead of piling up runaway goroutines
+			OnTimeout(map[string]interface{}{"program": prog.String(), "vars": cfg.Vars, "args": cfg.Args,
+				"note": "the interpreter did not return within " + RunTimeout.String() + " on this program (input: see the harness stream that was running)"})
+		}
+		return r
 	}
 }
 
